@@ -197,3 +197,34 @@ def omitted_axis_defaults_in_design_space(d):
     loc = src.getFullDesignLocation(doc)
     ob('omitted-axis-at-design-default', eq(loc['Weight'], ds[d]))
     ob('explicit-axis-kept', eq(loc['Width'], w))
+
+
+# ------------------------------------------------------------------------------------------------ flattening class-kerning subtables before merging masters
+from harness.C06_layout import same_pairs, _snapshot
+from harness.C02_roundtrip import Stub as _Font
+
+FLATTEN_SHAPES = {
+    # (classes1, classes2) per subtable; coverages differ, so glyphs covered only by a LATER subtable must keep that subtable's values ("transparent" rows)
+    'ab|ac': [([['a'], ['b']], [[], ['c'], ['d']]), ([['a'], ['c']], [[], ['d', 'e']])],
+    'ab|cd': [([['a', 'b']], [[], ['c']]), ([['c'], ['d']], [[], ['a'], ['e']])],
+    'a|abc': [([['a']], [[], ['b', 'c']]), ([['a', 'b'], ['c']], [[], ['b'], ['f']])],
+    'three': [([['a']], [[], ['d']]), ([['b']], [[], ['d', 'e']]), ([['a', 'c']], [[], ['e'], ['f']])],
+}
+
+
+@kernel('C10', funcs=['varLib/merger.py:_Lookup_PairPosFormat2_subtables_flatten', 'varLib/merger.py:_PairPosFormat2_align_matrices', 'varLib/merger.py:_ClassDef_merge_classify',
+                      'varLib/merger.py:_merge_GlyphOrders'],
+        bounds='a master kerning lookup of 2-3 class-based PairPos subtables with DIFFERENT coverages and different second-glyph classes (4 shapes), symbolic advance '
+               'adjustments: the single subtable the layout merger flattens them into before aligning masters gives, for every glyph pair of the 6-glyph universe, the '
+               'adjustment the OpenType lookup rule selects in the original list (first subtable covering the first glyph) - in particular a first glyph that only a later '
+               'subtable covers keeps that subtable values',
+        quick=[dict(shape='ab|ac'), dict(shape='ab|cd')], thorough=[dict(shape=s) for s in FLATTEN_SHAPES])
+def pairpos2_flatten_keeps_lookup(shape):
+    subs = [_classpair(c1, c2, 'adv', None, 'S%d' % i) for i, (c1, c2) in enumerate(FLATTEN_SHAPES[shape])]
+    order = {g: i for i, g in enumerate(GLYPHS)}
+    for st in subs:
+        st.Coverage.glyphs = sorted(st.Coverage.glyphs, key=order.get)
+    before = [_snapshot(st) for st in subs]
+    flat = MG._Lookup_PairPosFormat2_subtables_flatten(subs, _Font(GLYPHS))
+    observe('classes', [len(flat.Class1Record), len(flat.Class1Record[0].Class2Record) if flat.Class1Record else 0])
+    ob('same-pairs', same_pairs(before, [flat], GLYPHS))
